@@ -38,6 +38,11 @@ pub enum Op {
     /// like StartRun, but the client has sent a request and part of its body: the connection is
     /// parked *inside the handler* (which is reading) and stays there across a shutdown
     StartRunInHandler(u16),
+    /// like StartRun, but the handler has *returned* after reading part of an input record whose
+    /// rest has not arrived: the connection is parked inside `Request::close` (draining up to the
+    /// record boundary), `Token::run` has not returned and the token still exists. The flag says
+    /// whether the request carried KEEP_CONN.
+    StartRunInClose(u16, bool),
     /// Runner::shutdown on runner r (its queued requests are cancelled first); connections of
     /// that runner which are idle stop, one that is inside its handler keeps its slot
     Shutdown(u16),
@@ -234,6 +239,33 @@ fn test(c: &Case) -> TestResult {
                     }
                 }
             },
+            Op::StartRunInClose(t, keep) => {
+                if !tokens.is_empty() {
+                    let k = idx(*t, tokens.len());
+                    let tok = tokens.remove(k);
+                    // the handler reads 3 of the 11 payload bytes that have arrived of a 40-byte
+                    // record and returns; close() then needs the rest of that record
+                    let mut client = crate::wire::encode_all(&[
+                        crate::wire::Rec::new(crate::wire::T_BEGIN, 1, crate::wire::begin_body(1, u8::from(*keep)), 0),
+                        crate::wire::Rec::new(crate::wire::T_PARAMS, 1, vec![], 0),
+                        crate::wire::Rec::new(crate::wire::T_STDIN, 1, vec![7; 40], 0),
+                    ]);
+                    client.truncate(client.len() - 29);
+                    let n = client.len();
+                    let world: Shared = Arc::new(Mutex::new(World::new(client, vec![(n, Cond::Now)], vec![], vec![], false, IoFault::None)));
+                    world.lock().unwrap().close_at_end = false;
+                    let sh = Arc::new(HShared { scripts: vec![vec![HOp::Read(3), HOp::Return(crate::aio::Status::Complete(0))]], propagate: true, log: Mutex::new(Vec::new()), step: Arc::new(AtomicUsize::new(0)), world: world.clone() });
+                    let mut task = Task::new(tok.run(MockReader(world.clone()), MockWriter(world.clone()), make_handler(sh.clone())));
+                    let (end, _) = run_single(&mut task, 1000, |_| {});
+                    if end == RunEnd::Finished && used_shutdown {
+                        // the token came from a runner that has been shut down since: run() returns at once
+                    } else {
+                        let returned = sh.log.lock().unwrap().first().is_some_and(|i| i.returned.is_some());
+                        vensure!(end == RunEnd::Idle && returned, "harness-inconsistent", "{what}: the connection should be parked in close() after its handler returned ({end:?})");
+                        serving.push((task, world));
+                    }
+                }
+            },
             Op::Shutdown(r) => {
                 let ri = idx(*r, runners.len());
                 if runners.iter().filter(|x| x.is_some()).count() >= 2 {
@@ -313,7 +345,8 @@ fn test(c: &Case) -> TestResult {
         .label_if(used_clone, "cloned-runner")
         .label_if(c.ops.iter().any(|o| matches!(o, Op::DropTokenInPanic(_))), "drop-during-unwind")
         .label_if(c.ops.iter().any(|o| matches!(o, Op::RunToCompletion(_))), "run-to-completion")
-        .label_if(c.ops.iter().any(|o| matches!(o, Op::StartRun(_) | Op::StartRunInHandler(_))), "connection-being-served")
+        .label_if(c.ops.iter().any(|o| matches!(o, Op::StartRun(_) | Op::StartRunInHandler(_) | Op::StartRunInClose(..))), "connection-being-served")
+        .label_if(c.ops.iter().any(|o| matches!(o, Op::StartRunInClose(..))), "connection-parked-in-close")
         .label_if(used_shutdown, "runner-shut-down-mid-history"))
 }
 
@@ -483,6 +516,7 @@ fn op() -> BoxedStrategy<Op> {
         2 => (any::<u16>(), any::<bool>()).prop_map(|(i, c)| Op::FinishRun(i, c)),
         1 => any::<u16>().prop_map(Op::CloneRunner),
         1 => any::<u16>().prop_map(Op::StartRunInHandler),
+        1 => (any::<u16>(), any::<bool>()).prop_map(|(i, k)| Op::StartRunInClose(i, k)),
         1 => any::<u16>().prop_map(Op::Shutdown),
         1 => any::<u16>().prop_map(Op::CloneFrom),
     ]
